@@ -301,6 +301,15 @@ func init() {
 					}
 				}
 			}
+			// long declarations: 15, 16, 17, 20 and 40 bounds (any size-dependent strategy shows here)
+			for _, k := range []int{15, 16, 17, 20, 40} {
+				lin, pow := make([]float64, k), make([]float64, k)
+				for i := range lin {
+					lin[i] = float64(i + 1)
+					pow[i] = math.Ldexp(1, i-8)
+				}
+				subsets = append(subsets, lin, pow)
+			}
 			for _, bs := range subsets {
 				ds := make([]string, len(bs))
 				for i, b := range bs {
